@@ -283,6 +283,98 @@ def minimum_of_set(term):
     return None
 
 
+def bool_edges(term, negated=False):
+    """(true target, false target) of a switch on a bool (or on Not(bool) when negated)"""
+    one = term["targets"][term["vals"].index("1")] if "1" in term["vals"] else (term["otherwise"] if term["vals"] == ["0"] else None)
+    zero = term["targets"][term["vals"].index("0")] if "0" in term["vals"] else (term["otherwise"] if term["vals"] == ["1"] else None)
+    return (zero, one) if negated else (one, zero)
+
+
+def direct_emit_blocks(db, dcfg, desc, reps):
+    """Blocks of decode_byte at which the event of the current accepting state is emitted *at once* instead of being recorded: the exact
+    fast path of `candidate = (event, buffer.len()); return take_candidate()`.  Recording and taking a candidate that spans the whole buffer
+    leaves the candidate None (the stale one dropped), re-schedules nothing, clears the buffer, puts the automaton back to start() and
+    returns Some(event).  A block D qualifies when
+      * D empties the candidate (`item_candidate = None` / `.take()`), only for a *terminal* state of the same state description (on the
+        true edge of `<desc>.is_terminal`: a non-terminal accepting state could still be extended, emitting it would not be longest-match);
+      * every path from D to the return clears the buffer and assigns `automata_state = <automata>.start()`;
+      * nothing is re-scheduled and the candidate is not set again after D;
+      * every return value written after D is Some(<the event that the recording site stores>), and one is written on every path."""
+    ev_locals, ev_terms = set(), set()
+    for bb, e, ln in reps:
+        m = re.fullmatch(r"tuple\((.*), (?:SmallVec|Vec)::len\(arg1\.buffer\)\)", e)
+        if m:
+            ev_terms.add(m.group(1))
+    for i, si, s in db.assigns():
+        rv = s["rv"]
+        if rv["k"] == "agg" and rv["ak"] == "tuple" and len(rv["fields"]) == 2 and re.fullmatch(r"(?:SmallVec|Vec)::len\(arg1\.buffer\)", expr(db, rv["fields"][1])):
+            l = chase_copies(db, rv["fields"][0])
+            if l is not None:
+                ev_locals.add(l)
+    if not ev_terms:
+        return []
+
+    def is_event(op):
+        return expr(db, op) in ev_terms and (not ev_locals or chase_copies(db, op) in ev_locals)
+    live = [bb for bb, blk in enumerate(db.blocks) if not blk["cleanup"]]
+    clears = set()
+    for i, si, s in db.assigns():
+        rv = s["rv"]
+        if i in live and s["place"]["p"] and resolve_place(db, s["place"]) == "(*_1).item_candidate":
+            if (rv["k"] == "agg" and rv.get("variant") == "None") or (rv["k"] == "use" and expr(db, rv["a"]) in ("Option::None()", "Option::None")):
+                clears.add(i)
+    sets_candidate, resched, buf_clear, state_reset, ret_ok, ret_bad = set(), set(), set(), set(), set(), set()
+    for bb, t in db.calls():
+        if bb not in live or not t["args"]:
+            continue
+        nm = (callee_name(t) or "").split("::")[-1]
+        p0 = arg_place(db, t, 0)
+        if p0 == "(*_1).item_candidate":
+            if nm == "take" and call_matches(t, r"Option::<T>::take$"):
+                clears.add(bb)
+            elif nm in ("replace", "insert", "get_or_insert", "get_or_insert_with"):
+                sets_candidate.add(bb)
+        elif p0 == "(*_1).rescheduled" and nm in ("push", "extend", "insert", "insert_many", "extend_from_slice", "append"):
+            resched.add(bb)
+        elif p0 == "(*_1).buffer" and (nm == "clear" or (nm == "truncate" and len(t["args"]) > 1 and op_const_int(t["args"][1]) == 0)):
+            buf_clear.add(bb)
+        elif call_matches(t, r"^std::mem::take$") and p0 == "(*_1).buffer":
+            buf_clear.add(bb)
+        elif call_matches(t, r"MatcherDecoder::<T>::take_candidate$"):
+            resched.add(bb)           # would re-schedule / reset on its own: not this shape
+    for i, si, s in db.assigns():
+        if i not in live:
+            continue
+        rv, pl = s["rv"], s["place"]
+        if pl["p"] and resolve_place(db, pl) == "(*_1).automata_state":
+            e = expr(db, rv["a"]) if rv["k"] == "use" else ""
+            (state_reset if re.fullmatch(r"DFA::start\(.*arg1\.automata.*\)", e) else ret_bad).add(i)
+        elif pl["p"] and resolve_place(db, pl) == "(*_1).item_candidate" and i not in clears:
+            sets_candidate.add(i)
+        elif pl["l"] == 0 and not pl["p"] and not s.get("inl_ret"):
+            good = rv["k"] == "agg" and rv.get("variant") == "Some" and len(rv["fields"]) == 1 and is_event(rv["fields"][0])
+            (ret_ok if good else ret_bad).add(i)
+    terminal_edges = []
+    for bb in live:
+        t = db.blocks[bb]["term"]
+        if t["k"] == "switch":
+            m = re.fullmatch(r"(Not\()?(.*)\.is_terminal\)?", expr(db, t["d"]))
+            if m and m.group(2) == desc:
+                yes, no = bool_edges(t, bool(m.group(1)))
+                if yes is not None:
+                    terminal_edges.append((bb, yes))
+    out = []
+    for d in sorted(clears):
+        if not any(dcfg.edge_dominates(a, b, d) for a, b in terminal_edges):
+            continue
+        after = dcfg.reachable_from(d) - {d}
+        if after & (sets_candidate | resched | ret_bad | clears):
+            continue
+        if all(dcfg.must_pass(need, start=d, exits=dcfg.returns)[0] and need for need in (buf_clear, state_reset, ret_ok)):
+            out.append(d)
+    return out
+
+
 def run(ctx):
     prog, src = ctx.prog, ctx.src
     ctx.explanation = (
@@ -649,13 +741,14 @@ def run(ctx):
                         "a dead transition takes the candidate; take_candidate pushes back buffer[size..]", floor=3)
     if db is not None:
         dcfg = db.cfg()
-        acc = []
+        acc, m_desc = [], {}
         for bb, blk in enumerate(db.blocks):
             if blk["term"]["k"] != "switch" or blk["cleanup"]:
                 continue
             m = re.fullmatch(r"(Not\()?(.*)\.is_accepting\)?", expr(db, blk["term"]["d"]))
             if m:
                 acc.append((bb, blk["term"], bool(m.group(1))))
+                m_desc[bb] = m.group(2)
         # the candidate is stored with Option::replace / insert, or assigned `Some((event, len))`
         reps = [(bb, expr(db, t["args"][1]), t["line"]) for bb, t in db.calls() if call_matches(t, r"Option::<T>::(replace|insert)$") and arg_place(db, t, 0) == "(*_1).item_candidate"]
         for i, si, s in db.assigns():
@@ -674,8 +767,11 @@ def run(ctx):
             one = at["targets"][at["vals"].index("1")] if "1" in at["vals"] else (at["otherwise"] if at["vals"] == ["0"] else None)
             zero = at["targets"][at["vals"].index("0")] if "0" in at["vals"] else (at["otherwise"] if at["vals"] == ["1"] else None)
             yes = zero if neg else one
-            ok, wit = dcfg.must_pass([bb for bb, e, ln in reps], start=yes, exits=dcfg.returns) if yes is not None else (False, None)
-            ctx.instance("LONGEST", {"accepting_test_block": abb, "replace_blocks": [bb for bb, e, ln in reps], "unconditional_on_accept": ok})
+            # besides recording it, an accepting state may emit its event at once (exactly what record + take_candidate does when the candidate
+            # spans the whole buffer): see direct_emit_blocks
+            emits = direct_emit_blocks(db, dcfg, m_desc[abb], reps)
+            ok, wit = dcfg.must_pass([bb for bb, e, ln in reps] + emits, start=yes, exits=dcfg.returns) if yes is not None else (False, None)
+            ctx.instance("LONGEST", {"accepting_test_block": abb, "replace_blocks": [bb for bb, e, ln in reps], "direct_emit_blocks": emits, "unconditional_on_accept": ok})
             if not ok:
                 ctx.violation("LONGEST", DB, "conditional-candidate", "an accepting state can be passed without replacing the candidate (path %s): a shorter, stale "
                               "candidate would be emitted instead of the longest match" % wit, sites=["%s:%d" % (db.file, reps[0][2])])
